@@ -195,3 +195,78 @@ func c38LocalNormalizes(c *eng.Ctx) {
 		c.Check("R8", fmt.Sprintf("normalisation#%d-must-succeed", i+1), call.Pos(), n > 0 && bad == 0, "every way on which parseLocal returns a URL after normalising passed the test that the normalisation succeeded (a failure is an error, not a pass-through)", fmt.Sprintf("%d of %d accepting ways ignore the error", bad, n))
 	}
 }
+
+// c23HalfCloseKeepsCredits (C23.R7): half-closing ends only the local write
+// direction. In Multiplexer.enqueue the case that takes a close-write request
+// deletes nothing from the map of pending window increments (the peer may keep
+// writing and needs every credit for bytes already consumed); only a full close
+// cancels them (C24.R4).
+func c23HalfCloseKeepsCredits(c *eng.Ctx) {
+	enq := c.MustFunc("R7", muxPkg, "Multiplexer.enqueue")
+	if enq == nil {
+		return
+	}
+	cwF, err := c.P.Field(muxPkg, "Multiplexer", "enqueueCloseWrite")
+	if err != nil {
+		c.Problem("R7", "%v", err)
+		return
+	}
+	incMap := ""
+	for _, call := range eng.CallsNamed(enq, "(*multiplexing.messageBuffer).encodeStreamWindowIncrement") {
+		r := eng.Render(call.Common().Args[1])
+		incMap = strings.TrimSuffix(strings.TrimPrefix(r, "next(range("), "))#1")
+	}
+	found := false
+	for _, op := range eng.ChanOps(enq) {
+		if op.Send || op.Select == nil || eng.ChanField(op.Chan) != cwF {
+			continue
+		}
+		blk := eng.SelectCaseBlock(op.Select, op.Index)
+		if blk == nil {
+			continue
+		}
+		found = true
+		dropped := false
+		for _, b := range enq.Blocks {
+			if !blk.Dominates(b) {
+				continue
+			}
+			for _, in := range b.Instrs {
+				if call, ok := in.(*ssa.Call); ok && eng.CalleeName(call) == "builtin:delete" && eng.Render(call.Call.Args[0]) == incMap {
+					dropped = true
+				}
+			}
+		}
+		c.Check("R7", "half-close-keeps-pending-window-increments", blk.Instrs[0].Pos(), incMap != "" && !dropped, "taking a close-write request does not cancel the stream's pending window increment (the peer's remaining writes still need the credit)")
+	}
+	if !found {
+		c.Problem("R7", "enqueue has no receive on enqueueCloseWrite")
+	}
+}
+
+// c41ContainsAsksTheDisk (C41.R8): «already staged» is the staging directory's
+// verdict at the time of asking. Store.Contains answers true only on a way on
+// which os.Lstat of the content's target path succeeded (and reported a regular
+// file) — never from what the store remembers having written (a remembered set
+// outlives Finalize, which removes the directory).
+func c41ContainsAsksTheDisk(c *eng.Ctx) {
+	fn := c.MustFunc("R8", "pkg/synchronization/endpoint/local/staging/store", "Store.Contains")
+	if fn == nil {
+		return
+	}
+	n := 0
+	for _, r := range eng.Returns(fn) {
+		res := eng.RetResults(r)
+		// (a non-constant verdict, e.g. Mode().IsRegular(), is computed from that Lstat)
+		if v, isC := eng.ConstBool(res[0]); isC && !v {
+			continue
+		}
+		n++
+		g := eng.Guards(r)
+		asked := eng.HasAtom(g, `^\(os\.Lstat\(.*\)#1 == nil\)$`, true)
+		c.Check("R8", "true-only-after-lstat", r.Pos(), asked && eng.IsNilConst(res[1]), "Contains reports true only where os.Lstat of the target succeeded just now", atomsShort(g))
+	}
+	if n == 0 {
+		c.Problem("R8", "Store.Contains never reports true")
+	}
+}
